@@ -29,16 +29,29 @@ const day = 24 * 60 * 60
 
 // ---- configuration and alphabet ---------------------------------------------
 
-// cfg is one parameter choice; durations in seconds.
+// cfg is one parameter choice; durations in seconds.  ThrottleOnly marks the
+// throttle pass, in which no cookie is ever presented and session state is
+// neither part of the state key nor a source of clock boundaries.
 type cfg struct {
-	Max   int
-	Block int64
-	TTL   int64
+	Max          int
+	Block        int64
+	TTL          int64
+	ThrottleOnly bool
 }
 
-func (c cfg) String() string { return fmt.Sprintf("%d/%d/%d", c.Max, c.Block, c.TTL) }
+func (c cfg) String() string {
+	s := fmt.Sprintf("%d/%d/%d", c.Max, c.Block, c.TTL)
+	if c.ThrottleOnly {
+		s += "/T"
+	}
+	return s
+}
 
 func parseCfg(s string) (c cfg, err error) {
+	if strings.HasSuffix(s, "/T") {
+		c.ThrottleOnly = true
+		s = strings.TrimSuffix(s, "/T")
+	}
 	_, err = fmt.Sscanf(s, "%d/%d/%d", &c.Max, &c.Block, &c.TTL)
 	if err == nil && (c.Max < 1 || c.Block < 1 || c.TTL < 1) {
 		err = fmt.Errorf("bad configuration %q", s)
@@ -57,12 +70,12 @@ const (
 // pair of values of any two parameters at least once.
 func crossConfigs(quick bool) (l []cfg) {
 	if quick {
-		return []cfg{{1, b2, t1h}, {1, b15, t3d}, {2, b2, t3d}, {2, b15, t1h}, {3, b2, t1h}, {3, b15, t3d}}
+		return []cfg{{Max: 1, Block: b2, TTL: t1h}, {Max: 1, Block: b15, TTL: t3d}, {Max: 2, Block: b2, TTL: t3d}, {Max: 2, Block: b15, TTL: t1h}, {Max: 3, Block: b2, TTL: t1h}, {Max: 3, Block: b15, TTL: t3d}}
 	}
 	for _, m := range []int{1, 2, 3} {
 		for _, b := range []int64{b2, b15} {
 			for _, t := range []int64{t1h, t3d} {
-				l = append(l, cfg{m, b, t})
+				l = append(l, cfg{Max: m, Block: b, TTL: t})
 			}
 		}
 	}
@@ -170,12 +183,12 @@ type unit struct {
 // configuration at a reference depth, growth per level), for dealing units to
 // processes.
 func (u unit) weight() float64 {
-	ref, base, growth, ops := 4, 11.4, 7.0, 17.0
+	ref, base, growth, ops := 4, 15.6, 7.0, 17.0
 	switch u.Pass {
 	case "T":
-		ref, base, growth, ops = 8, 10, 1.6, 10
+		ref, base, growth, ops = 8, 15, 2.7, 10
 	case "S":
-		ref, base, growth, ops = 6, 27, 4.5, 11
+		ref, base, growth, ops = 6, 44, 4.5, 11
 	}
 	w := base
 	for d := ref; d < u.Depth; d++ {
@@ -217,7 +230,7 @@ func deal(us []unit, n int) (mine [][]unit) {
 }
 
 // plan lists the work units of a tier.  depth maps pass -> depth bound, split
-// maps pass -> number of parts one BFS is cut into by its first operation.
+// maps pass -> number of parts one BFS is cut into.
 func plan(quick bool, depth, split map[string]int) (us []unit) {
 	add := func(pass string, cf cfg) {
 		k := split[pass]
@@ -231,12 +244,12 @@ func plan(quick bool, depth, split map[string]int) (us []unit) {
 	// Throttling does not read the session TTL: every (maxAttempts, blockDur).
 	for _, m := range []int{1, 2, 3} {
 		for _, b := range []int64{b2, b15} {
-			add("T", cfg{m, b, t1h})
+			add("T", cfg{Max: m, Block: b, TTL: t1h, ThrottleOnly: true})
 		}
 	}
 	// Sessions do not read the throttling parameters: every TTL.
 	for _, t := range []int64{t1h, t3d} {
-		add("S", cfg{2, b2, t})
+		add("S", cfg{Max: 2, Block: b2, TTL: t})
 	}
 	for _, cf := range crossConfigs(quick) {
 		add("X", cf)
@@ -246,9 +259,9 @@ func plan(quick bool, depth, split map[string]int) (us []unit) {
 
 func tierParams(quick bool) (depth, split map[string]int) {
 	if quick {
-		return map[string]int{"T": 9, "S": 7, "X": 4}, map[string]int{"T": 2, "S": 12, "X": 2}
+		return map[string]int{"T": 8, "S": 6, "X": 4}, map[string]int{"T": 3, "S": 6, "X": 3}
 	}
-	return map[string]int{"T": 14, "S": 8, "X": 5}, map[string]int{"T": 4, "S": 48, "X": 4}
+	return map[string]int{"T": 10, "S": 8, "X": 5}, map[string]int{"T": 8, "S": 48, "X": 8}
 }
 
 // ---- reference model -----------------------------------------------------------
@@ -271,6 +284,10 @@ type model struct {
 	now  int64
 	tab  [2]*mrec
 	sess []*msess
+	// observable is the number of sessions (in order of issue) whose cookie
+	// some operation of the pass can present: nCookies, or 0 in the throttle
+	// pass.  Only those are in the state key and have boundaries.
+	observable int
 }
 
 // live returns the live failed-attempt record of an address.
@@ -329,7 +346,10 @@ func (m *model) boundary(t int64) bool {
 			return true
 		}
 	}
-	for _, s := range m.sess {
+	for i, s := range m.sess {
+		if i >= m.observable {
+			break
+		}
 		if s.loggedOut || s.dead {
 			continue
 		}
@@ -564,9 +584,6 @@ func (rs *runState) key(lastBlocked, throttleOnly bool) (k string, vkey, vdesc s
 	}
 	var sb strings.Builder
 	sb.WriteString(m.cf.String())
-	if throttleOnly {
-		sb.WriteString("|throttle-only")
-	}
 	sb.WriteString("|F")
 	nowT := time.Unix(m.now, 0)
 	for _, f := range failed {
@@ -646,8 +663,8 @@ func (rs *runState) key(lastBlocked, throttleOnly bool) (k string, vkey, vdesc s
 }
 
 // exec replays hist on a fresh instance; the oracle is checked at every step.
-func exec(pass string, cf cfg, hist []op) (st lib.Step) {
-	throttleOnly := pass == "T"
+func exec(cf cfg, hist []op) (st lib.Step) {
+	throttleOnly := cf.ThrottleOnly
 	defer func() {
 		if r := recover(); r != nil {
 			st = lib.Step{VKey: "panic:outside-operation", VDesc: fmt.Sprintf("panic while setting up, dumping or closing: %v\n%s\ncase: %s", r, debug.Stack(), jsonStr(hist))}
@@ -667,7 +684,7 @@ func exec(pass string, cf cfg, hist []op) (st lib.Step) {
 	fail := func(k, d string, upto int) lib.Step {
 		st.Key = ""
 		st.VKey = k
-		st.VDesc = fmt.Sprintf("%s\nconfiguration: maxAttempts=%d blockDur=%ds sessionTTL=%ds, clock starts at %s\nhistory (failing step %d of %d): %s\ncase: %s",
+		st.VDesc = fmt.Sprintf("%s\nconfiguration: maxAttempts=%d blockDur=%ds sessionTTL=%ds, clock starts at %s (UTC)\nhistory (failing step %d of %d): %s\ncase: %s",
 			d, cf.Max, cf.Block, cf.TTL, time.Unix(start, 0).UTC().Format(time.RFC3339), upto+1, len(hist), histString(hist[:upto+1]), jsonStr(hist))
 		return st
 	}
@@ -686,7 +703,10 @@ func exec(pass string, cf cfg, hist []op) (st lib.Step) {
 	}
 	defer home.VerifC12Close()
 
-	rs := &runState{m: &model{cf: cf, now: start}, tokIdx: map[string]int{}}
+	rs := &runState{m: &model{cf: cf, now: start, observable: nCookies}, tokIdx: map[string]int{}}
+	if throttleOnly {
+		rs.m.observable = 0
+	}
 	lastBlocked := false
 	for i, o := range hist {
 		res := rs.apply(o, i)
@@ -777,7 +797,7 @@ func run(c *lib.Ctx) {
 		cpu0 := cpuSeconds()
 		b := &lib.BFS[op]{C: c, Ops: alphabet(u.Pass, u.Cf), MaxDepth: u.Depth, Workers: 1, Confirm: true,
 			Exec: func(h []op) lib.Step {
-				st := exec(u.Pass, u.Cf, h)
+				st := exec(u.Cf, h)
 				if u.K > 1 && len(h) == splitLevel(u.Pass) && st.VKey == "" && st.Key != "" && lib.Hash(st.Key)%uint64(u.K) != uint64(u.J) {
 					// Another part extends this state.
 					return lib.Step{Outcome: st.Outcome}
@@ -802,7 +822,7 @@ func run(c *lib.Ctx) {
 		names = append(names, cf.String())
 	}
 	c.Note("plan", fmt.Sprintf("pass T (throttle, %d operations, depth %d) on maxAttempts{1,2,3} x blockDur{120,900 s} with TTL 3600 s; pass S (sessions, %d operations, depth %d) on TTL{3600,259200 s} with maxAttempts 2, blockDur 120 s; pass X (cross, %d operations, depth %d) on maxAttempts/blockSeconds/ttlSeconds %s; %d BFS runs over %d processes",
-		len(alphabet("T", cfg{1, b2, t1h})), depth["T"], len(alphabet("S", cfg{1, b2, t1h})), depth["S"], len(alphabet("X", cfg{1, b2, t1h})), depth["X"], strings.Join(names, " "), len(units), shardN))
+		len(alphabet("T", cfg{Max: 1, Block: b2, TTL: t1h})), depth["T"], len(alphabet("S", cfg{Max: 1, Block: b2, TTL: t1h})), depth["S"], len(alphabet("X", cfg{Max: 1, Block: b2, TTL: t1h})), depth["X"], strings.Join(names, " "), len(units), shardN))
 	c.Note("alphabet", "bad-login(addr0: wrong password + proxy headers naming addr1 | addr1: unknown user), good-login(addr0|addr1), request(cookie0|1), logout(cookie0|1), advance{1,59,61,block-1,block+1,ttl-1,ttl+1,86400 s}, restart; cookie i = i-th session cookie issued in the history")
 }
 
@@ -829,7 +849,7 @@ func replay(c *lib.Ctx, raw json.RawMessage) string {
 	if err != nil {
 		return err.Error()
 	}
-	st := exec("X", cf, hist)
+	st := exec(cf, hist)
 	if st.VKey != "" {
 		return st.VKey + ": " + st.VDesc
 	}
